@@ -53,6 +53,9 @@ for p in "${patches[@]}"; do
       rp=$("$BIN/tsrs-sim-$CFG" replay "$first" 2>&1); rprc=$?
       if [ $rprc -eq 1 ] && echo "$rp" | grep -q -- "--- $(jq -r .oracle "$first") "; then rpl="replay reproduces"; else rpl="REPLAY DOES NOT REPRODUCE (rc=$rprc)"; fi
       echo "$name $prop CAUGHT ($total of $n seeds; minimised: $oracles; ops $(jq -r '.ops_before_minimisation' "$first")->$(jq -r '.ops_after_minimisation' "$first"); $rpl)"
+    elif [ $rc -eq 0 ] && [ "$prop" = C13 ] && [ "$CFG" = default ] && ! VERIF_REPLAYS="$rd" /verif/tools/double_build.sh 5 default >/tmp/sens-dbl-$$.log 2>&1; then
+      # the second half of the C13 check: real compilations of /verif/dblbuild
+      echo "$name $prop CAUGHT (by the real double build, 5 compilations; simulator: 0 violating runs of $n seeds; $(grep -m1 -E '^[<>] ' /tmp/sens-dbl-$$.log | cut -c1-80))"
     elif [ $rc -eq 0 ]; then
       echo "$name $prop missed ($n seeds)"
     else
